@@ -8,8 +8,26 @@ import obs
 PDEN = 8
 
 
+_TIME_DEN = [None]   # optional override of the ticks-per-time-unit used by fl (C20: decimal grids); None = obs.SCALE
+
+
 def fl(t):
-    return t / SCALE
+    return t / (SCALE if _TIME_DEN[0] is None else _TIME_DEN[0])
+
+
+class time_den:
+    """with netbuild.time_den(10): ...  builds/runs a configuration with 10 ticks per time unit
+    (values t/10 are not dyadic).  Default behaviour (SCALE ticks per unit) is unchanged outside the block."""
+
+    def __init__(self, den):
+        self.den = den
+
+    def __enter__(self):
+        self.old = _TIME_DEN[0]
+        _TIME_DEN[0] = self.den
+
+    def __exit__(self, *a):
+        _TIME_DEN[0] = self.old
 
 
 def cname(i):
